@@ -148,7 +148,7 @@ func runC05(c *ctx) error {
 					}
 					for a := range anchors {
 						caseNo++
-						h := &world.History{Level: 0, Pub: []world.Placed{
+						h := &world.History{Level: 1, Pub: []world.Placed{
 							{Op: create, OID: 1, Time: 5, Num: 0, CRef: 1, PVer: 5},
 							{Op: op, OID: 2, Time: uint64(a), Num: 1, CRef: 2, PVer: uint64(a)},
 						}}
